@@ -229,3 +229,46 @@ Example c15_settings_nonvacuous :
   nsort (sderive_scratch (Some r) [c]) = [5; 6; 7; 8] /\
   nsort (sderive_inc (sderive_inc [] [a; b]) [r; c]) = [5; 6; 7; 8].
 Proof. vm_compute. repeat split; reflexivity. Qed.
+
+(* ---- the settings object (settingsObject.Update / Rebuild / Init called by the sync tree): for ANY sequence of
+   listener calls that satisfies the tree's iteration contract [sev_wf] - Append: the changes iterated after
+   LastIteratedId are exactly the new records; Rebuild / Init: iteration from the root (the true root, or a snapshot
+   record whose snapshot holds exactly the ids of the record and its ancestors) covers everything held; held sets only
+   grow - the kept state AND the ids handed to the deletion manager are exactly the ids of the records held at the end:
+   whatever the arrival order, the batching and the restarts *)
+Theorem c15_settings_object_union : forall hevs prev o, agrees o prev -> chain_wf prev hevs ->
+  agrees (sobj_run o (map snd hevs)) (last (map fst hevs) prev).
+Proof. exact sobj_run_union. Qed.
+Print Assumptions c15_settings_object_union.
+
+Theorem c15_settings_object_order_free : forall h1 h2 held,
+  chain_wf [] h1 -> chain_wf [] h2 ->
+  (forall c, In c (last (map fst h1) []) <-> In c held) -> (forall c, In c (last (map fst h2) []) <-> In c held) ->
+  forall x, (In x (so_state (sobj_run sobj_init (map snd h1))) <-> In x (so_state (sobj_run sobj_init (map snd h2)))) /\
+            (In x (so_seen (sobj_run sobj_init (map snd h1))) <-> ids_of held x).
+Proof. exact sobj_order_free. Qed.
+Print Assumptions c15_settings_object_order_free.
+
+(* two concurrent records b, c on top of a, then a merge d: replica 1 gets b then c (c sorts after b: Append), replica 2
+   gets c then b (b sorts BEFORE the point its state stopped at: the tree reports Rebuild, the object re-derives from the
+   root); both chains satisfy the contract, both end with all four ids; keeping the state in the second chain (continuing
+   after c: nothing new is iterated) would lose b's id *)
+Example c15_settings_object_nonvacuous :
+  let a := mkSC 1 [5] None in let b := mkSC 2 [6] None in let c := mkSC 3 [7] None in let d := mkSC 4 [8] None in
+  let h1 := [([a], mkSEv SAppend None [a]); ([a; b], mkSEv SAppend None [b]); ([a; b; c], mkSEv SAppend None [c]);
+             ([a; b; c; d], mkSEv SAppend None [d])] in
+  let h2 := [([a], mkSEv SAppend None [a]); ([a; c], mkSEv SAppend None [c]); ([a; c; b], mkSEv SRebuild None [a; b; c]);
+             ([a; c; b; d], mkSEv SAppend None [d])] in
+  chain_wf [] h1 /\ chain_wf [] h2 /\
+  nsort (so_state (sobj_run sobj_init (map snd h1))) = [5; 6; 7; 8] /\
+  nsort (so_state (sobj_run sobj_init (map snd h2))) = [5; 6; 7; 8] /\
+  nsort (so_seen (sobj_run sobj_init (map snd h2))) = [5; 6; 7; 8] /\
+  nsort (so_state (sobj_run sobj_init [mkSEv SAppend None [a]; mkSEv SAppend None [c]; mkSEv SAppend None []; mkSEv SAppend None [d]])) = [5; 7; 8].
+Proof.
+  cbv zeta. repeat split; try (vm_compute; reflexivity).
+  - repeat (apply chain_cons; [apply wf_append; intros x; cbn [In]; tauto|]). apply chain_nil.
+  - apply chain_cons; [apply wf_append; intros x; cbn [In]; tauto|].
+    apply chain_cons; [apply wf_append; intros x; cbn [In]; tauto|].
+    apply chain_cons; [apply wf_scratch_root; [now right | intros x; cbn [In]; tauto | intros x; cbn [In]; tauto]|].
+    apply chain_cons; [apply wf_append; intros x; cbn [In]; tauto|]. apply chain_nil.
+Qed.
